@@ -313,6 +313,7 @@ impl Display for RegExp<'_> {
 }
 
 fn indent_regexp(regexp: String, config: &RegExpConfig) -> String {
+    let color_replace_regex = Regex::new("\u{1b}\\[(?:\\d+;\\d+|0)m").unwrap();
     let mut indented_regexp = vec![];
     let mut nesting_level = 0;
 
@@ -324,21 +325,18 @@ fn indent_regexp(regexp: String, config: &RegExpConfig) -> String {
             continue;
         }
 
-        let is_colored_line = line.starts_with("\u{1b}[");
+        // Look at the line without color codes so that highlighted and plain output
+        // are indented in the same way.
+        let uncolored_line = color_replace_regex.replace_all(line, "");
 
-        if nesting_level > 0
-            && ((is_colored_line && (line.contains('$') || line.contains(')')))
-                || (line == "$" || line.starts_with(')')))
-        {
+        if nesting_level > 0 && (uncolored_line == "$" || uncolored_line.starts_with(')')) {
             nesting_level -= 1;
         }
 
         let indentation = "  ".repeat(nesting_level);
         indented_regexp.push(format!("{indentation}{line}"));
 
-        if (is_colored_line && (line.contains('^') || (i > 0 && line.contains('('))))
-            || (line == "^" || (i > 0 && line.starts_with('(')))
-        {
+        if uncolored_line == "^" || (i > 0 && uncolored_line.starts_with('(')) {
             nesting_level += 1;
         }
     }
